@@ -460,6 +460,19 @@ def bounded_native(ck):
                               "input": {"row": [repr(float(x)) for x in row], "ys": ys.tolist(), "queries": [repr(float(q)) for q in qs], "bracket width": width}, "observed": {"code": got.tolist(), "spec": want.tolist()}})
         except Exception as ex:
             fails.append({"obligation": "bounded.vec_1d_interp", "clause": "a narrow bracket is evaluated", "input": {"bracket width": width}, "observed": "raised %r" % ex})
+    # (a'') ordinates of integer type (an axis stored as integers): same values as for the floats they denote
+    for ydt in (np.int64, np.int32):
+        row = np.array([0.0, 0.25, 0.6, 1.0])
+        ysi = np.array([0, 2, 5, 9], dtype=ydt)
+        qs = np.array([0.1, 0.25, 0.5, 0.99])
+        n += len(qs)
+        try:
+            got = np.asarray(vec_1d_interp(np.tile(row, (len(qs), 1)), ysi.copy(), qs.copy()), dtype=float)
+            want = np.interp(qs, row, ysi.astype(float))
+            if not np.allclose(got, want, rtol=1e-12, atol=0):
+                fails.append({"obligation": "bounded.vec_1d_interp", "clause": "ordinates of integer type are interpolated like the floats they denote", "input": {"ys dtype": str(np.dtype(ydt)), "row": row.tolist(), "ys": ysi.tolist(), "queries": qs.tolist()}, "observed": {"code": got.tolist(), "spec": want.tolist()}})
+        except Exception as ex:
+            fails.append({"obligation": "bounded.vec_1d_interp", "clause": "ordinates of integer type are accepted", "input": {"ys dtype": str(np.dtype(ydt))}, "observed": "raised %r" % ex})
     # (b) the real sampler on the shipped tables: own energy/angle/u per event, chunking, mixed batches
     for ver in VERSIONS:
         nt = NativeTables(ver)
